@@ -305,6 +305,81 @@ SPECS.append(FucSpec(
            'root is marked stale'))
 
 
+def rha_setup(I):
+    self = obj(I, 'self', 'Component')
+    I.st.uses_any = True
+    m = obj(I, 'method', 'Handler')
+    I.assume(I.field(self, 'root').t != core.null())
+    # the handler is registered the way addHandler registers it (proved above): in the table of each of its names, or in the
+    # catch-all table / the globals when it has none
+    names = z3.Select(HEAP(I, 'h_names'), m.t)
+    names_empty = I.fz(m, 'h_names_empty')
+    is_global = z3.And(names_empty, z3.Select(HEAP(I, 'h_channel'), m.t) == STAR())
+    dom, val = z3.Select(I.st.heap['_handlers'][0], self.t), z3.Select(I.st.heap['_handlers'][1], self.t)
+    k = core.fresh('k', S())
+    where = z3.If(names_empty, z3.And(z3.Not(is_global), k == z3.StringVal('*')), z3.Select(names, k))
+    I.assume(z3.ForAll([k], z3.And(z3.Select(dom, k), z3.Select(z3.Select(val, k), m.t)) == where), 'requires: registered by addHandler')
+    I.assume(z3.Select(z3.Select(HEAP(I, '_globals'), self.t), m.t) == is_global)
+    I.st.inputs['names_empty'] = names_empty
+    I.st.inputs['is_global'] = is_global
+    return {'self': self, 'method': m}
+
+
+def rha_post(I, outcome, ctx):
+    kind, v = outcome
+    a, pre = ctx['args'], ctx['pre']
+    self, m = a['self'], a['method']
+    if kind == 'raise':
+        I.oblige('no_escape', z3.BoolVal(False), detail='removing a registered handler raised %s' % v.cls)
+        return
+    cover(I, 'return')
+    I.oblige('cache_of_the_root_invalidated', z3.Select(HEAP(I, '_cache_needs_refresh'), z3.Select(pre['root'][0], self.t)))
+    k, h = core.fresh('k', S()), core.fresh('h', R())
+    old_dom, old_val = z3.Select(pre['_handlers'][0], self.t), z3.Select(pre['_handlers'][1], self.t)
+    new_dom, new_val = z3.Select(I.st.heap['_handlers'][0], self.t), z3.Select(I.st.heap['_handlers'][1], self.t)
+    old_in = z3.And(z3.Select(old_dom, k), z3.Select(z3.Select(old_val, k), h))
+    new_in = z3.And(z3.Select(new_dom, k), z3.Select(z3.Select(new_val, k), h))
+    # from the property: "handlers ... removed ... before that moment are always reflected": after removeHandler(method) the
+    # method is in no table and not among the globals, whatever kind of handler it is (named, catch-all, global)
+    I.oblige('removed_handler_is_in_no_table', z3.ForAll([k], z3.Not(z3.And(z3.Select(new_dom, k), z3.Select(z3.Select(new_val, k), m.t)))),
+             detail='a removed handler must not be found by getHandlers any more: named handlers leave the tables of their names, a '
+                    'handler for all events leaves the catch-all table')
+    g0, g1 = z3.Select(pre['_globals'][0], self.t), z3.Select(HEAP(I, '_globals'), self.t)
+    I.oblige('removed_handler_is_not_global_any_more', z3.Not(z3.Select(g1, m.t)))
+    I.oblige('other_handlers_keep_their_tables', z3.ForAll([k, h], z3.Implies(h != m.t, new_in == old_in)))
+    I.oblige('other_globals_kept', z3.ForAll([h], z3.Implies(h != m.t, z3.Select(g1, h) == z3.Select(g0, h))))
+
+
+def rha_loop_inv(I):
+    self, m = I.local('self'), I.local('method')
+    vis = I.local('__visited0').arr
+    pre_dom, pre_val = I.st.ghost['PRE_DOM'], I.st.ghost['PRE_VAL']
+    k, h = core.fresh('k', S()), core.fresh('h', R())
+    new_dom, new_val = z3.Select(I.st.heap['_handlers'][0], self.t), z3.Select(I.st.heap['_handlers'][1], self.t)
+    old_in = z3.And(z3.Select(pre_dom, k), z3.Select(z3.Select(pre_val, k), h))
+    new_in = z3.And(z3.Select(new_dom, k), z3.Select(z3.Select(new_val, k), h))
+    return z3.ForAll([k, h], new_in == z3.And(old_in, z3.Not(z3.And(h == m.t, z3.Select(vis, k)))))
+
+
+def rha_setup2(I):
+    a = rha_setup(I)
+    self = a['self']
+    I.st.ghost['PRE_DOM'] = z3.Select(I.st.heap['_handlers'][0], self.t)
+    I.st.ghost['PRE_VAL'] = z3.Select(I.st.heap['_handlers'][1], self.t)
+    return a
+
+
+SPECS.append(FucSpec(
+    'C01', MGR, 'Manager.removeHandler', rha_setup2, rha_post, name='Manager.removeHandler[all names]', fields=H_FIELDS, field_alias=H_ALIAS,
+    replay=lambda model, ob: "import sys\nfrom circuits import Component, Event, handler\nclass ping(Event): pass\nseen=[]\nclass App(Component):\n    pass\napp=App()\ndef catch_all(self, event, *a): \n    if event.name=='ping': seen.append('catch_all')\ndef glob(self, event, *a):\n    if event.name=='ping': seen.append('global')\ndef named(self, *a): seen.append('named')\nh1=app.addHandler(handler()(catch_all))            # all events on the component's channel\nh2=app.addHandler(handler(channel='*')(glob))       # all events, all channels\nh3=app.addHandler(handler('ping')(named))\napp.fire(ping()); app.flush(); app.flush()\nprint('before removal:', sorted(seen)); del seen[:]\nfor h in (h1,h2,h3): app.removeHandler(h)\napp.fire(ping()); app.flush(); app.flush()\nprint('after removeHandler of all three:', sorted(seen))\nsys.exit(1 if seen else 0)\n",
+    classes={'Handler'}, calls={'delattr': lambda I, r, a, k: NONE},
+    getattr_hooks={'h_names': lambda I, o: names_view(I, o)},
+    loops={0: LoopSpec(inv=[('tables_of_visited_names_lost_the_method', rha_loop_inv)], havoc_fields=['_handlers'])},
+    cover=['return'],
+    clause='removeHandler(method) without event name: whatever kind of handler it is (named, catch-all, global) it is afterwards in no '
+           'table and not among the globals, nothing else changes, and the cache of the root is marked stale'))
+
+
 # ----------------------------------------------------------------------------- cache invalidation duties of the tree operations
 def dpu_cache_post(I, outcome, ctx):
     if no_escape(I, outcome):
@@ -422,3 +497,14 @@ from pyvc.contract import CustomCheck as _CustomCheck          # noqa: E402
 SPECS.append(_CustomCheck('C01', 'Forest.lean', _lean_check('Forest.lean'), file='lemmas/Forest.lean',
                           clause='lemma G8 (a non-trivial member of sub[y] lies below some child of y) follows from the proved conjuncts '
                                  'G2 and G4 of the Forest invariant and well-foundedness of the parent relation (Lean 4, no sorry)'))
+
+
+# the cache-invalidation duties of registerChild / unregisterChild (contracts written for C07) are what keeps the handler set of
+# C01 live when a component joins or leaves between two dispatches: the same contracts are obligations of C01 as well
+import copy as _copy                                  # noqa: E402
+from contracts import core_tree as _ct               # noqa: E402
+for _s in _ct.SPECS:
+    if getattr(_s, 'qual', None) in ('Manager.registerChild', 'Manager.unregisterChild') and not isinstance(_s, _CustomCheck):
+        _c = _copy.copy(_s)
+        _c.prop = 'C01'
+        SPECS.append(_c)
